@@ -404,6 +404,8 @@ class Normalizer:
       return all_of(self.compare(ast.Eq(), self.term(args[0], env), self.term(args[1], env)))
     if name in ('numpy.array', 'numpy.asarray', 'jax.numpy.array', 'list', 'tuple'):
       return self.term(args[0], env) if args else ('tup', ())
+    if name in ('numpy.isin', 'jax.numpy.isin', 'numpy.in1d') and len(args) == 2 and not e.keywords:
+      return self.compare(ast.In(), self.term(args[0], env), self.term(args[1], env))
     if name in ('numpy.isinf', 'jax.numpy.isinf'):
       return ('in', ('abs', self.term(args[0], env)), frozenset([INF]))
     if name in ('numpy.isfinite', 'jax.numpy.isfinite'):
